@@ -704,6 +704,12 @@ pub fn run(rep: &Reporter) -> Coverage {
             evals.fetch_add(n, Ordering::Relaxed);
             cases += (asets.len() * asets.len() * ops.len()) as u64;
         }
+        if bd.annotations {
+            let pool: Vec<R> = vec![(0, 1), (0, 2), (1, 3), (3, 4), (2, 2)].into_iter().filter(|r| r.1 <= len).collect();
+            let (c, n) = check_annotations_two_resources(rep, text, &pool, &ops);
+            cases += c;
+            evals.fetch_add(n, Ordering::Relaxed);
+        }
         space.push(json!({"text": text, "codepoints": len, "ranges": ranges.len(), "range_pairs": npairs,
             "sets": nsets, "max_set_size": bd.maxset, "sets_nonempty_ranges_only": bd.set_nonempty_only,
             "set_pairs": nsets * nsets, "annotations": nann, "operator_variants": ops.len()}));
@@ -718,7 +724,7 @@ pub fn run(rep: &Reporter) -> Coverage {
     cov.traces_validated = cases;
     cov.evaluations = evals.load(Ordering::Relaxed);
     cov.distinct_nontrivial = nontrivial;
-    cov.rule = "every ordered pair of ranges [b,e) (0<=b<=e<=len) and every ordered pair of sets of at most max_set_size ranges over each text, crossed with every operator variant (12 relations x all x negate x limit in {none,0,1,3} x whitespace); states = (operands, operator) cases, transitions = calls of the library's test functions; non-trivial = both operands non-empty ranges (pairs) or at least one multi-element set (sets)".into();
+    cov.rule = "every ordered pair of ranges [b,e) (0<=b<=e<=len) and every ordered pair of sets of at most max_set_size ranges over each text, crossed with every operator variant (12 relations x all x negate x limit in {none,0,1,3} x whitespace); annotations over two resources (at most one range of a 5-range pool in each, either order) against each other: the annotation-level test must be the disjunction of the set tests in the common resources; states = (operands, operator) cases, transitions = calls of the library's test functions; non-trivial = both operands non-empty ranges (pairs) or at least one multi-element set (sets)".into();
     cov.samples = samples;
     cov.exhaustive = true;
     cov.extra.insert("space".into(), Value::Array(space));
@@ -727,6 +733,76 @@ pub fn run(rep: &Reporter) -> Coverage {
         "overlap involving an empty range, Equals/InSet with all:true on sets and limit combined with all:true on multi-element sets are treated as unspecified (laws / no-panic only)".into(),
     ];
     cov
+}
+
+/// Annotations over two resources: an annotation has at most one range in each of r and r2 (given first or second in its
+/// selector). `a.test(op, b)` must hold exactly when the relation holds, as tested on the sets, in a resource that both
+/// annotations select text in - whichever resources the two annotations have besides, and in whatever order.
+fn check_annotations_two_resources(rep: &Reporter, text: &str, pool: &[R], ops: &[OpSpec]) -> (u64, u64) {
+    let mut store = AnnotationStore::default();
+    for rid in ["r", "r2"] {
+        store.add_resource(TextResourceBuilder::new().with_id(rid).with_text(text)).expect("add_resource");
+    }
+    // shapes: (range in r, range in r2, r2 listed first)
+    let mut shapes: Vec<(Option<R>, Option<R>, bool)> = Vec::new();
+    for x in pool {
+        shapes.push((Some(*x), None, false));
+        shapes.push((None, Some(*x), false));
+        for y in pool {
+            shapes.push((Some(*x), Some(*y), false));
+            shapes.push((Some(*x), Some(*y), true));
+        }
+    }
+    for (i, (a, b, second_first)) in shapes.iter().enumerate() {
+        let ts = |rid: &str, r: &R| SelectorBuilder::textselector(rid.to_string(), Offset::simple(r.0, r.1));
+        let target = match (a, b) {
+            (Some(x), None) => ts("r", x),
+            (None, Some(y)) => ts("r2", y),
+            (Some(x), Some(y)) => SelectorBuilder::directionalselector(if *second_first { vec![ts("r2", y), ts("r", x)] } else { vec![ts("r", x), ts("r2", y)] }),
+            _ => unreachable!(),
+        };
+        store.annotate(AnnotationBuilder::new().with_id(format!("m{}", i)).with_target(target)).expect("annotate");
+    }
+    let store = &store;
+    let anns: Vec<ResultItem<Annotation>> = (0..shapes.len()).map(|i| store.annotation(format!("m{}", i).as_str()).unwrap()).collect();
+    let setof = |rid: &str, r: &R| -> ResultTextSelectionSet { std::iter::once(store.resource(rid).unwrap().textselection(&Offset::simple(r.0, r.1)).expect("range")).collect() };
+    let n = AtomicU64::new(0);
+    (0..shapes.len()).into_par_iter().for_each(|ia| {
+        let mut cnt = 0;
+        for ib in 0..shapes.len() {
+            for (i, op) in ops.iter().enumerate() {
+                let o = op.to_op();
+                let got = catch(|| anns[ia].test(&o, &anns[ib])).map_err(|m| msg_class(&m));
+                // per common resource
+                let mut want: Result<bool, String> = Ok(false);
+                for (rid, xa, xb) in [("r", shapes[ia].0, shapes[ib].0), ("r2", shapes[ia].1, shapes[ib].1)] {
+                    if let (Some(xa), Some(xb)) = (xa, xb) {
+                        match eval_setset(&setof(rid, &xa), &setof(rid, &xb), op) {
+                            Ok(true) => {
+                                if want.is_ok() {
+                                    want = Ok(true);
+                                }
+                            }
+                            Ok(false) => {}
+                            Err(m) => want = Err(m),
+                        }
+                    }
+                }
+                cnt += 3;
+                if want.is_ok() && got != want {
+                    let class = format!("{}{}-vs-{}{}", if shapes[ia].0.is_some() { "r" } else { "" }, if shapes[ia].1.is_some() { "+r2" } else { "" }, if shapes[ib].0.is_some() { "r" } else { "" }, if shapes[ib].1.is_some() { "+r2" } else { "" });
+                    rep.fail(
+                        &format!("ann2res|{}|differs-from-per-resource-set-tests:got={}|{}", op.name(), fmt_res(&got), class),
+                        ((ia * shapes.len() + ib) * 1000 + i) as u64,
+                        || format!("text={:?} (in r and r2) A={:?} B={:?} op={}: annotation.test = {} but the sets in the common resources give {}", text, shapes[ia], shapes[ib], op.name(), fmt_res(&got), fmt_res(&want)),
+                        || json!({"kind": "ann2res", "text": text, "pool": pool, "ia": ia, "ib": ib, "op": op.to_json()}),
+                    );
+                }
+            }
+        }
+        n.fetch_add(cnt, Ordering::Relaxed);
+    });
+    ((shapes.len() * shapes.len() * ops.len()) as u64, n.load(Ordering::Relaxed))
 }
 
 fn ranges_from(v: &Value) -> Vec<R> {
@@ -756,6 +832,10 @@ pub fn replay(rep: &Reporter, case: &Value) {
         }
         "ann" => {
             check_annotations(rep, &text, &[a.clone(), b.clone()], &ops);
+        }
+        "ann2res" => {
+            let pool = ranges_from(&case["pool"]);
+            check_annotations_two_resources(rep, &text, &pool, &ops);
         }
         _ => {
             let len = text.chars().count();
